@@ -259,17 +259,6 @@ func derivesFromAnswer(v ssa.Value, call *ssa.Call) bool {
 // clause of C16 (R2) and C19 (R4).
 func (c *Ctx) streamChain(rule string) {
 	r := c.R
-	streamParam := func(sig *types.Signature) int {
-		for i := 0; i < sig.Params().Len(); i++ {
-			p := sig.Params().At(i)
-			if p.Name() == "stream" {
-				if b, ok := p.Type().Underlying().(*types.Basic); ok && b.Kind() == types.Uint {
-					return i
-				}
-			}
-		}
-		return -1
-	}
 	n := 0
 	for _, f := range c.P.LibraryFuncs() {
 		if pkgOf(f).Path() != pkgDiam {
@@ -417,6 +406,14 @@ func (c *Ctx) streamChain(rule string) {
 							if stores > 0 && good {
 								inObj = true
 							}
+						}
+					}
+					// … or inside an adapter value passed in the same call (the io.Writer view of one stream): the
+					// adapter is built here with the requested stream in one field, and every method of its type hands
+					// exactly that field of its receiver to the stream-taking writes it makes
+					for _, a := range ci.Common().Args {
+						if c.c16AdapterCarries(f, a, own) {
+							inObj = true
 						}
 					}
 					// … or inside a closure passed in the same call, which hands it unchanged to a stream-taking write
@@ -596,10 +593,20 @@ func (c *Ctx) c16CurrentStreamLifetime() {
 				r.Fail("R2", key, c.pos(rs), "the connection's current stream is cleared by a deferred call, i.e. right after the message was read: while the handler runs the transport no longer knows the stream the request arrived on, and an answer written through the connection's Write adaptor leaves on the default stream")
 				continue
 			}
-			before := false
+			// leads into the read: from the reset every way out of the function passes a read, and no read comes
+			// before it
+			isRead := func(in ssa.Instruction) bool {
+				for _, rd := range reads {
+					if ssa.Instruction(rd) == in {
+						return true
+					}
+				}
+				return false
+			}
+			before := flow.PathAvoiding(f, rs, flow.IsExit, isRead) == nil
 			for _, rd := range reads {
-				if flow.Dominates(rs, rd) {
-					before = true
+				if flow.PathAvoiding(f, rd, func(in ssa.Instruction) bool { return in == ssa.Instruction(rs) }, nil) != nil {
+					before = false
 				}
 			}
 			r.Check(before, "R2", key, c.pos(rs), "the current stream is cleared on the way into the next read", "the connection's current stream is cleared at a point that does not lead into the next read (after the read / on another path): the request's stream is forgotten while its handler may still answer through the Write adaptor")
@@ -608,4 +615,152 @@ func (c *Ctx) c16CurrentStreamLifetime() {
 	if n == 0 {
 		r.Trivial("R2", "current-stream-lifetime:no-site", "-", "no function both reads messages and clears a connection's current stream")
 	}
+}
+
+// c16AdapterCarries: a is a struct value (possibly boxed into an interface) built in f from a composite literal
+// that stores f's parameter own into field k, and the struct type's methods pass field k of their receiver, and
+// nothing else, as the stream of every stream-taking call they make (at least one such call exists).
+func (c *Ctx) c16AdapterCarries(f *ssa.Function, a ssa.Value, own int) bool {
+	if mi, ok := a.(*ssa.MakeInterface); ok {
+		a = mi.X
+	}
+	var al *ssa.Alloc
+	switch y := a.(type) {
+	case *ssa.UnOp:
+		if y.Op == token.MUL {
+			al, _ = y.X.(*ssa.Alloc)
+		}
+	case *ssa.Alloc:
+		al = y
+	}
+	if al == nil {
+		return false
+	}
+	named, _ := deref(al.Type()).(*types.Named)
+	if named == nil {
+		return false
+	}
+	if _, isSt := named.Underlying().(*types.Struct); !isSt {
+		return false
+	}
+	k := -1
+	for _, ref := range flow.Referrers(al) {
+		fa, ok := ref.(*ssa.FieldAddr)
+		if !ok {
+			continue
+		}
+		for _, r2 := range flow.Referrers(fa) {
+			if st, ok := r2.(*ssa.Store); ok && st.Addr == ssa.Value(fa) {
+				if p, isP := flow.Peel(st.Val).(*ssa.Parameter); isP && paramIndex(f, p) == own {
+					if k >= 0 && k != fa.Field {
+						return false
+					}
+					k = fa.Field
+				} else if fa.Field == k {
+					return false
+				}
+			}
+		}
+	}
+	if k < 0 {
+		return false
+	}
+	// a second store into field k anywhere in f (after the literal) would change the stream: refuse
+	stores := 0
+	for _, ref := range flow.Referrers(al) {
+		if fa, ok := ref.(*ssa.FieldAddr); ok && fa.Field == k {
+			for _, r2 := range flow.Referrers(fa) {
+				if st, ok := r2.(*ssa.Store); ok && st.Addr == ssa.Value(fa) {
+					stores++
+				}
+			}
+		}
+	}
+	if stores != 1 {
+		return false
+	}
+	uses, good := 0, true
+	for _, T := range []types.Type{named, types.NewPointer(named)} {
+		ms := c.P.SSA.MethodSets.MethodSet(T)
+		for i := 0; i < ms.Len(); i++ {
+			m := c.P.SSA.MethodValue(ms.At(i))
+			if m == nil || m.Blocks == nil || m.Synthetic != "" || len(m.Params) == 0 {
+				continue
+			}
+			recv := m.Params[0]
+			for _, cj := range flow.CallInstrs(m) {
+				o := flow.CalleeObj(cj)
+				if o == nil {
+					continue
+				}
+				csig, _ := o.Type().(*types.Signature)
+				if csig == nil {
+					continue
+				}
+				sp := streamParam(csig)
+				if sp < 0 {
+					continue
+				}
+				cargs := cj.Common().Args
+				if !cj.Common().IsInvoke() && csig.Recv() != nil {
+					sp++
+				}
+				if sp >= len(cargs) {
+					good = false
+					continue
+				}
+				av := flow.Peel(cargs[sp])
+				isField := false
+				switch y := av.(type) {
+				case *ssa.Field:
+					isField = y.Field == k && (y.X == ssa.Value(recv) || spilledParam(y.X) == recv)
+				case *ssa.UnOp:
+					if fa, ok := y.X.(*ssa.FieldAddr); ok && y.Op == token.MUL && fa.Field == k {
+						if fa.X == ssa.Value(recv) {
+							isField = true
+						} else if cell, ok := fa.X.(*ssa.Alloc); ok {
+							for _, ref := range flow.Referrers(cell) {
+								if st, ok := ref.(*ssa.Store); ok && st.Addr == ssa.Value(cell) && st.Val == ssa.Value(recv) {
+									isField = true
+								}
+							}
+						}
+					}
+				}
+				if isField {
+					uses++
+				} else {
+					good = false
+				}
+			}
+			// the method must not assign the field either
+			flow.Instrs(m, func(in ssa.Instruction) {
+				if st, ok := in.(*ssa.Store); ok {
+					if fa, ok := st.Addr.(*ssa.FieldAddr); ok && fa.Field == k && types.Identical(deref(fa.X.Type()), named) {
+						good = false
+					}
+				}
+			})
+		}
+	}
+	return uses > 0 && good
+}
+
+func streamParam(sig *types.Signature) int {
+	for i := 0; i < sig.Params().Len(); i++ {
+		p := sig.Params().At(i)
+		if p.Name() == "stream" {
+			if b, ok := p.Type().Underlying().(*types.Basic); ok && b.Kind() == types.Uint {
+				return i
+			}
+		}
+	}
+	return -1
+}
+
+func deref(t types.Type) types.Type {
+	if p, ok := t.Underlying().(*types.Pointer); ok {
+		return p.Elem()
+	}
+	return t
 }
